@@ -109,8 +109,11 @@ class Rig:
         if self._loop_cls is not None:
             self._mtc.TimeTravelLoop = self._loop_cls
         self.case.rig_booting = True
+        import contextlib
+        import io
         try:
-            self.case.setUp()
+            with contextlib.redirect_stdout(io.StringIO()):
+                self.case.setUp()
             self.case.rig_booting = False
         except BaseException as e:   # pylint: disable=broad-except
             self.case.rig_booting = False
@@ -127,6 +130,54 @@ class Rig:
         return self
 
     def stop(self):
+        import contextlib
+        import io
+        with contextlib.redirect_stdout(io.StringIO()):    # MachineController._do_stop prints when tasks linger
+            self._stop()
+
+    @staticmethod
+    def _drop_caches():
+        """MPF memoises three *methods* with functools.lru_cache (ConfigValidator.build_spec,
+        BasePlaceholderManager.parse_conditional_template, EventManager.get_event_and_condition_from_string); the caches
+        keep every machine ever booted in this process alive. A harness that boots thousands of machines per process
+        has to empty them or it runs out of memory (4 GB per worker in the thorough tier)."""
+        import gc
+        try:
+            from mpf.core.config_validator import ConfigValidator
+            from mpf.core.placeholder_manager import BasePlaceholderManager
+            from mpf.core.events import EventManager
+            for fn in (ConfigValidator.build_spec, BasePlaceholderManager.parse_conditional_template,
+                       EventManager.get_event_and_condition_from_string):
+                if hasattr(fn, "cache_clear"):
+                    fn.cache_clear()
+        except Exception:   # pylint: disable=broad-except
+            pass
+        # the DeviceMonitor decorator keeps a class-level dict keyed by device instance (attribute_futures) which is
+        # never emptied: every device that ever changed a monitored attribute - and its machine - stays alive
+        import sys
+        nmod = len(sys.modules)
+        if getattr(Rig, "_mon_nmod", None) != nmod:
+            Rig._mon_nmod = nmod
+            found = set()
+            for name, mod in list(sys.modules.items()):
+                if name.startswith("mpf.") and mod is not None:
+                    for obj in list(vars(mod).values()):
+                        if isinstance(obj, type) and isinstance(vars(obj).get("attribute_futures"), dict):
+                            found.add(obj)
+            Rig._mon_classes = found
+        for cls in getattr(Rig, "_mon_classes", ()):
+            cls.attribute_futures.clear()
+        Rig._stops = getattr(Rig, "_stops", 0) + 1
+        if Rig._stops % 25 == 0:
+            gc.collect()
+
+    def _stop(self):
+        try:
+            self._stop_inner()
+        finally:
+            self._drop_caches()
+
+    def _stop_inner(self):
         case = self.case
         try:
             if case.machine is not None:
